@@ -180,6 +180,111 @@ def mut_cache_key(src):
     return replace_once(src, "@lru_cache(maxsize=None)\ndef compute_equations(", "@staticmethod\ndef compute_equations(")
 
 
+# ---- twin audit (same-typed section variables written for each other, swapped argument order / tuple components)
+def in_get_asserted(src, edit):
+    """apply `edit` (text -> text) to the text of DataflowTransactionContext._get_asserted only"""
+    a = src.index("    def _get_asserted(self, key: str, ins_stack_value: KnownStackValue)")
+    b = src.index("    def _block_level_constraints(")
+    body = edit(src[a:b])
+    if body == src[a:b]:
+        raise RuntimeError("mutation anchor not found in _get_asserted")
+    return src[:a] + body + src[b:]
+
+
+def swap_words(text, x, y):
+    return text.replace(x, "\0").replace(y, x).replace("\0", y)
+
+
+def mut_all_null_universal(src):
+    """(t1) _get_asserted: every self._null_set(key) replaced (the function no longer uses `null` at all)"""
+    return in_get_asserted(src, lambda t: t.replace("self._null_set(key)", "self._universal_set(key)"))
+
+
+def mut_all_ops_swapped(src):
+    """(t2) _get_asserted: self._union and self._intersection exchanged everywhere"""
+    return in_get_asserted(src, lambda t: swap_words(t, "self._union(", "self._intersection("))
+
+
+def mut_all_sets_swapped(src):
+    """(t3) _get_asserted: self._universal_set and self._null_set exchanged everywhere"""
+    return in_get_asserted(src, lambda t: swap_words(t, "self._universal_set(", "self._null_set("))
+
+
+def mut_or_swap(src):
+    """(t4) Or branch: _intersection and _union swapped"""
+    return replace_once(
+        src,
+        "            final_false_values = self._intersection(key, final_false_values, false_values)\n"
+        "            final_true_values = self._union(key, final_true_values, true_values)\n",
+        "            final_false_values = self._union(key, final_false_values, false_values)\n"
+        "            final_true_values = self._intersection(key, final_true_values, true_values)\n",
+    )
+
+
+def mut_or_init_swapped(src):
+    """(t5) Or branch: accumulators initialised the other way round"""
+    return replace_once(
+        src,
+        "compute_equations(ins_stack_value, Or)\n        final_false_values = self._universal_set(key)\n        final_true_values = self._null_set(key)\n",
+        "compute_equations(ins_stack_value, Or)\n        final_false_values = self._null_set(key)\n        final_true_values = self._universal_set(key)\n",
+    )
+
+
+def mut_all_ops_union(src):
+    """(t6) _get_asserted: every self._intersection replaced by self._union (the function no longer uses `inter`)"""
+    return in_get_asserted(src, lambda t: t.replace("self._intersection(", "self._union("))
+
+
+def mut_and_inter_args(src):
+    """(a1) And branch: the two set arguments of _intersection swapped"""
+    return replace_once(
+        src,
+        "final_true_values = self._intersection(key, final_true_values, true_values)",
+        "final_true_values = self._intersection(key, true_values, final_true_values)",
+    )
+
+
+def mut_or_union_args(src):
+    """(a2) Or branch: the two set arguments of _union swapped"""
+    return replace_once(
+        src,
+        "            final_true_values = self._union(key, final_true_values, true_values)\n",
+        "            final_true_values = self._union(key, true_values, final_true_values)\n",
+    )
+
+
+def mut_and_return_swapped(src):
+    """(a3) And branch returns (false values, true values)"""
+    return replace_once(
+        src,
+        "                final_false_values = self._universal_set(key)\n            return final_true_values, final_false_values\n",
+        "                final_false_values = self._universal_set(key)\n            return final_false_values, final_true_values\n",
+    )
+
+
+def mut_and_unpack_swapped(src):
+    """(a4) And branch unpacks the recursive result as (false values, true values)"""
+    return replace_once(
+        src,
+        "                true_values, false_values = self._get_asserted(key, equation)\n                final_true_values = self._intersection(",
+        "                false_values, true_values = self._get_asserted(key, equation)\n                final_true_values = self._intersection(",
+    )
+
+
+def mut_or_return_swapped(src):
+    """(a5) Or branch returns (false values, true values)"""
+    return replace_once(
+        src,
+        "            final_true_values = self._universal_set(key)\n        return final_true_values, final_false_values\n",
+        "            final_true_values = self._universal_set(key)\n        return final_false_values, final_true_values\n",
+    )
+
+
+def mut_equations_pair_swapped(src):
+    """(a6, stack_ast_builder.py) compute_equations returns (flag, equations)"""
+    return replace_once(src, "    return known_equations, has_unkown_value\n", "    return has_unkown_value, known_equations\n")
+
+
 MUTATIONS = [
     ("(i) And: _intersection/_union swapped", GEN, mut_and_swap),
     ("(ii) And: `if has_unknown_value` override dropped", GEN, mut_and_drop_unknown),
@@ -199,6 +304,18 @@ MUTATIONS = [
     ("(s5) subclass overrides _get_asserted", FEE, mut_override),
     ("(s6) class name Or rebound in generic.py", GEN, mut_rebind_class),
     ("(s7) other decorator on compute_equations", SB, mut_cache_key),
+    ("(t1) TWIN every _null_set -> _universal_set", GEN, mut_all_null_universal),
+    ("(t2) TWIN _union <-> _intersection everywhere", GEN, mut_all_ops_swapped),
+    ("(t3) TWIN _universal_set <-> _null_set everywhere", GEN, mut_all_sets_swapped),
+    ("(t4) TWIN Or: _intersection/_union swapped", GEN, mut_or_swap),
+    ("(t5) TWIN Or: accumulators initialised swapped", GEN, mut_or_init_swapped),
+    ("(t6) TWIN every _intersection -> _union", GEN, mut_all_ops_union),
+    ("(a1) ARGS And: _intersection(key, y, x)", GEN, mut_and_inter_args),
+    ("(a2) ARGS Or: _union(key, y, x)", GEN, mut_or_union_args),
+    ("(a3) PAIR And returns (false, true)", GEN, mut_and_return_swapped),
+    ("(a4) PAIR And unpacks (false, true)", GEN, mut_and_unpack_swapped),
+    ("(a5) PAIR Or returns (false, true)", GEN, mut_or_return_swapped),
+    ("(a6) PAIR compute_equations returns (flag, equations)", SB, mut_equations_pair_swapped),
 ]
 REQUIRED = 4  # the first four rows are the mutations required by the task
 
